@@ -35,6 +35,18 @@ def run_stream(ctx, mode, n, oracle, classify=None, extra_gen_args=None):
                                compare_keys=COMPARE, nontrivial=nontrivial, oracle=oracle, classify=classify or cls)
 
 
+def oracle_fatal(case, fi, fm):
+    """C09 "fatal only on request": with ErrorOnFSErrors (no limit, no cancellation, no extractor panic) the scan must
+    fail exactly when the walk is told about a filesystem failure (specification: traversalFaultScan)."""
+    if fm.get('fatalhyp') != '1' or 'specfatal' not in fm:
+        return None
+    want = 'fs' if fm['specfatal'] == '1' else 'none'
+    if fi.get('err') != want:
+        return 'ErrorOnFSErrors is set and the walk %s a filesystem failure, but the scan reported err=%s (expected %s)' % (
+            'meets' if want == 'fs' else 'does not meet', fi.get('err'), want)
+    return None
+
+
 def oracle_calls(case, fi, fm):
     """C01 / C09: where the hypothesis of the refinement theorem holds (benign configuration), the
     IMPLEMENTATION's Extract calls must be exactly the specification's, in order; and the scan must succeed."""
